@@ -1,5 +1,6 @@
 """C03 — a successful pull leaves exactly the published, digest-verified model (legacy pull path)."""
 import os
+import re
 
 from vlib import core
 from vlib.registry import COMMON_NOTE
@@ -47,6 +48,7 @@ THEOREMS = [
     "OllamaVerif.C03.retry_can_succeed",
     "OllamaVerif.C03.resume_plan_order_independent",
     "OllamaVerif.C03.glob_order_12",
+    "OllamaVerif.C03.malformed_redirect_outcomes",
     "OllamaVerif.C03.stuck_plan_never_recovers",
     "OllamaVerif.C03.challenge_panics_iff",
     "OllamaVerif.C03.challenge_total_fixed",
@@ -71,18 +73,52 @@ def normalize(line):
     return " || ".join(segs)
 
 
+MAX_RESTARTS = 5
+
+
+def crash_site(out):
+    """(function of this repo on top of the panicking goroutine, panic message) from a Go crash dump."""
+    msg = re.search(r"^(?:panic|fatal error): (.*)$", out, re.M)
+    fn = re.search(r"^(github\.com/ollama/ollama/[\w/]+\.[^\s(]*(?:\([^)]*\))?[\w.]*)\(", out[msg.end():] if msg else out, re.M)
+    return (fn.group(1).replace("github.com/ollama/ollama/", "") if fn else "unknown"), (msg.group(1)[:160] if msg else "no panic message")
+
+
 def run(ctx):
     ctx.lean_check(MODULES, THEOREMS)
     env = {"VERIF_N": ctx.scale(400, 12000), "VERIF_NCH": ctx.scale(2000, 60000),
            "VERIF_NPLAN": ctx.scale(40, 2000), "VERIF_CORPUS": os.path.join(core.ROOT, "corpus", "C03")}
     if ctx.replay:
         env["VERIF_REPLAY"] = ctx.replay_line_file()
-    rc, out, outdir = ctx.go_test("./server/", OVERLAY, "^TestVerifC03$", env=env, timeout=ctx.scale(600, 2400))
-    if rc != 0:
-        ctx.violation("driver-failed", "", out[-1500:], no_input=True)
-    ctx.read_stats(outdir)
-    ctx.l1(outdir, normalize=normalize)
-    ctx.classify(ctx.l2(outdir))
+    # The driver announces every case before it runs.  If the code under test kills the process (a panic on a
+    # goroutine nothing recovers = what would kill the server), the announced case is an L2 failure with the
+    # case as its replay, and the driver is restarted at the next case.
+    start, restarts = 0, 0
+    while True:
+        env["VERIF_C03_START"] = start
+        rc, out, outdir = ctx.go_test("./server/", OVERLAY, "^TestVerifC03$", env=env, timeout=ctx.scale(600, 2400))
+        ctx.read_stats(outdir)
+        ctx.l1(outdir, normalize=normalize)
+        ctx.classify(ctx.l2(outdir))
+        if rc == 0:
+            break
+        prog = []
+        try:
+            prog = open(os.path.join(outdir, "progress.txt")).read().split("\n")
+        except OSError:
+            pass
+        crashed = re.search(r"^(panic|fatal error): ", out, re.M) and len(prog) >= 2 and prog[0].isdigit()
+        if not crashed:
+            ctx.violation("driver-failed", "", out[-1500:], no_input=True)
+            break
+        fn, msg = crash_site(out)
+        ctx.classify([{"kind": "process-death", "case": prog[1],
+                       "detail": f"site={fn} the process running the pull died: {msg}"}])
+        ctx.coverage["process_deaths"] = ctx.coverage.get("process_deaths", 0) + 1
+        restarts += 1
+        if ctx.replay or restarts > MAX_RESTARTS:
+            ctx.notes.append(f"driver restarted {restarts} times after process deaths; exploration stopped at case {prog[0]}")
+            break
+        start = int(prog[0]) + 1
     if not ctx.replay:
         rc2, out2, outdir2 = ctx.go_test("./server/", OVERLAY, "^TestVerifC03Liveness$", timeout=600)
         if rc2 != 0:
